@@ -404,7 +404,7 @@ func (c *GroupCoordinator) OffsetFetch(ctx context.Context, req *kmsg.OffsetFetc
 		topicResp.Topic = topic.Topic
 		topicResp.Partitions = make([]kmsg.OffsetFetchResponseTopicPartition, 0, len(topic.Partitions))
 		for _, partID := range topic.Partitions {
-			offset, metadataStr, err := c.store.FetchConsumerOffset(ctx, req.Group, topic.Topic, partID)
+			offset, metadataStr, err := c.fetchCommittedOffset(ctx, req.Group, topic.Topic, partID)
 			code := int16(protocol.NONE)
 			if err != nil {
 				code = protocol.UNKNOWN_SERVER_ERROR
@@ -420,6 +420,23 @@ func (c *GroupCoordinator) OffsetFetch(ctx context.Context, req *kmsg.OffsetFetc
 		resp.Topics = append(resp.Topics, topicResp)
 	}
 	return resp, nil
+}
+
+// fetchCommittedOffset returns -1 (Kafka's "no committed offset") for a partition
+// the group never committed, when the store can tell that case apart.
+func (c *GroupCoordinator) fetchCommittedOffset(ctx context.Context, group, topic string, partition int32) (int64, string, error) {
+	lookup, ok := c.store.(metadata.ConsumerOffsetLookup)
+	if !ok {
+		return c.store.FetchConsumerOffset(ctx, group, topic, partition)
+	}
+	offset, meta, found, err := lookup.LookupConsumerOffset(ctx, group, topic, partition)
+	if err != nil {
+		return 0, "", err
+	}
+	if !found {
+		return -1, "", nil
+	}
+	return offset, meta, nil
 }
 
 func (c *GroupCoordinator) DescribeGroups(ctx context.Context, req *kmsg.DescribeGroupsRequest) (*kmsg.DescribeGroupsResponse, error) {
